@@ -439,8 +439,8 @@ impl Session {
         old(self).remote_incoming_window > 0,   // [C07.window.safety] a transfer frame is emitted only inside the peer's window
     ensures
         r is Ok,                                                                            // [C07.inner.total]
-        r->Ok_0 == xfer_frame(old(self).outgoing_channel, transfer, payload, old(self).next_outgoing_id),   // [C11.delivery-id.stamp] a frame carrying a tag is stamped with next-outgoing-id; payload and other fields untouched
-        final(self).next_outgoing_id == add32(old(self).next_outgoing_id, 1),                              // [C07.inner.next-outgoing-id] advances once per frame sent
+        r->Ok_0 == xfer_frame(old(self).outgoing_channel, transfer, payload, old(self).next_outgoing_id),   // [C11.delivery-id.stamp] [C01.session.payload-untouched] a frame carrying a tag is stamped with next-outgoing-id; payload and other fields untouched
+        final(self).next_outgoing_id == add32(old(self).next_outgoing_id, 1),                              // [C07.inner.next-outgoing-id] advances once per frame sent [C11.delivery-id.increasing] so successive stamped deliveries get strictly increasing (serial) ids, never reused
         final(self).remote_incoming_window == old(self).remote_incoming_window - 1,                         // [C07.inner.window] decremented once per frame sent
         final(self).delivery_tag_by_id@ == dt_after(old(self).delivery_tag_by_id@, old(self).next_outgoing_id, input_handle, transfer),  // [C02.register] unsettled delivery registered under (Receiver, id) with its own handle and tag; nothing else touched
         final(self).same_outside_fc(old(self)),                                             // [C07.inner.frame]
@@ -561,8 +561,8 @@ impl Session {
         ({
             let q = old(self).remote_incoming_window_exhausted_buffer@.push((input_handle, transfer, payload));
             let m = if old(self).remote_incoming_window as int <= q.len() { old(self).remote_incoming_window as int } else { q.len() as int };
-            &&& final(self).fc(Self::item_frames(r->Ok_0)) == fc_run(old(self).fc(Seq::empty()), old(self).outgoing_channel, q.take(m))   // [C07.send.fifo] frames emitted are exactly the first m of (held-back ++ [current]), in order, each stamped with consecutive ids
-            &&& final(self).remote_incoming_window_exhausted_buffer@ == q.skip(m)                                                         // [C07.send.no-loss] the rest stays held back in order (nothing dropped / duplicated / reordered)
+            &&& final(self).fc(Self::item_frames(r->Ok_0)) == fc_run(old(self).fc(Seq::empty()), old(self).outgoing_channel, q.take(m))   // [C07.send.fifo] [C01.session.fifo] frames emitted are exactly the first m of (held-back ++ [current]), in order, each stamped with consecutive ids
+            &&& final(self).remote_incoming_window_exhausted_buffer@ == q.skip(m)                                                         // [C07.send.no-loss] [C01.session.no-loss] the rest stays held back in order (nothing dropped / duplicated / reordered)
             &&& Self::item_frames(r->Ok_0).len() == m                                                                                     // [C07.send.within-window] number of frames emitted never exceeds the peer's remaining window
             &&& final(self).next_outgoing_id == add32(old(self).next_outgoing_id, m)                                                      // [C07.send.id-accounting]
             &&& final(self).remote_incoming_window == old(self).remote_incoming_window - m                                                // [C07.send.window-accounting]
@@ -705,10 +705,10 @@ impl Session {
             &&& 0 <= k <= 1                                                       // [C07.inflow.shape] at most one flow frame, then the released transfers
             &&& k == 1 ==> old(self).flow_frame_reports(frames[0], flow.next_outgoing_id, old(self).next_outgoing_id)   // [C07.inflow.flow-reports]
             &&& frames.skip(k) =~= fc_run(FC { noi: old(self).next_outgoing_id, riw: w, dt: old(self).delivery_tag_by_id@, out: Seq::empty() },
-                    old(self).outgoing_channel, b.take(n)).out                    // [C07.inflow.release-fifo] when the peer reopens the window the held-back transfers are sent, oldest first, as many as the new window allows
+                    old(self).outgoing_channel, b.take(n)).out                    // [C07.inflow.release-fifo] [C01.session.release-fifo] when the peer reopens the window the held-back transfers are sent, oldest first, as many as the new window allows
             &&& final(self).delivery_tag_by_id@ == fc_run(FC { noi: old(self).next_outgoing_id, riw: w, dt: old(self).delivery_tag_by_id@, out: Seq::empty() },
                     old(self).outgoing_channel, b.take(n)).dt                     // [C02.register.inflow]
-            &&& final(self).remote_incoming_window_exhausted_buffer@ == b.skip(n)   // [C07.inflow.no-loss]
+            &&& final(self).remote_incoming_window_exhausted_buffer@ == b.skip(n)   // [C07.inflow.no-loss] [C01.session.release-no-loss]
             &&& final(self).remote_incoming_window == w - n                       // [C07.inflow.window-accounting]
             &&& final(self).next_outgoing_id == add32(old(self).next_outgoing_id, n)   // [C07.inflow.id-accounting]
             &&& (final(self).remote_incoming_window == 0 || final(self).remote_incoming_window_exhausted_buffer@.len() == 0)   // [C07.inflow.drain] every held-back transfer is sent once the window allows
